@@ -255,6 +255,9 @@ func c18Run(c *core.Ctx) {
 }
 
 func c18Replay(c *core.Ctx, payload json.RawMessage) {
+	if c18LongReplay(c, payload) {
+		return
+	}
 	var p c18Payload
 	if err := json.Unmarshal(payload, &p); err != nil {
 		fmt.Println("bad payload:", err)
